@@ -121,6 +121,7 @@ Definition op_out_eqb (a b : op_out) : bool :=
 
 Inductive c02_case :=
 | H1Case (meth : bytes) (body : bspec) (wire : list piece)
+         (cut : option N)           (* the peer closed the connection after this many bytes *)
          (has_body : bool)          (* the response carries the body (not HEAD / 204 / 304) *)
          (m : mode) (pat : list N)
          (o_noresp : bool)          (* the call failed without a response *)
@@ -131,6 +132,7 @@ Inductive c02_case :=
    (offset, length) slices of the body with padding length and END_STREAM, the trailer fields *)
 | H2Case (is_head : bool) (body : bspec) (heads : list (bytes * list mfield * bool))
          (frames : list (N * N * N * bool)) (trailers : option (list mfield))
+         (after : list h2ev)        (* peer events after the response was complete *)
          (has_body : bool) (m : mode) (pat : list N)
          (o_noresp : bool) (o_code : Z) (o_header : hmap) (o_cl : Z) (o_trailer : hmap) (o : obs_api)
          (o_interims : list (Z * hmap))
@@ -175,9 +177,12 @@ Definition mux_matches (ref : bytes) (d : option mux_delivery)
 
 Definition c02_check (c : c02_case) : bool :=
   match c with
-  | H1Case meth body pieces has_body m pat o_noresp o_code o_status o_header o_cl o_trailer o o_interims =>
+  | H1Case meth body pieces cut has_body m pat o_noresp o_code o_status o_header o_cl o_trailer o o_interims =>
       let bd := expand_body body in
-      let wire := expand_wire bd pieces in
+      let wire := match cut with
+                  | Some k => firstn (N.to_nat k) (expand_wire bd pieces)
+                  | None => expand_wire bd pieces
+                  end in
       let ref := if has_body then bd else [] in
       let sizes := cycle_sizes (S (S (length wire))) pat in
       match h1_exchange_f meth m sizes wire with
@@ -191,14 +196,14 @@ Definition c02_check (c : c02_case) : bool :=
           api_matches ref (d_api d) o &&
           interims_eqb (interim_heads_f (S (S max_1xx)) meth br_size wire) o_interims
       end
-  | H2Case is_head body heads frames trailers has_body m pat o_noresp o_code o_header o_cl o_trailer o o_interims =>
+  | H2Case is_head body heads frames trailers after has_body m pat o_noresp o_code o_header o_cl o_trailer o o_interims =>
       let bd := expand_body body in
       let ref := if has_body then bd else [] in
       let sizes := cycle_sizes (S (S (length bd))) pat in
       let hs := map (fun x => {| hh_status := fst (fst x); hh_fields := snd (fst x); hh_end := snd x |}) heads in
       let fr := map (fun x => match x with (off, len, pad, e) =>
                                 {| fd_data := slice bd off len; fd_pad := pad; fd_end := e |} end) frames in
-      mux_matches ref (h2_exchange is_head hs fr trailers m sizes) o_noresp o_code o_header o_cl o_trailer o &&
+      mux_matches ref (h2_exchange_after is_head hs fr trailers after m sizes) o_noresp o_code o_header o_cl o_trailer o &&
       (o_noresp || interims_eqb (h2_interim_heads hs) o_interims)
   | H3Case is_head body heads parts trailers has_body m pat o_noresp o_code o_header o_cl o_trailer o o_interims =>
       let bd := expand_body body in
